@@ -1,6 +1,7 @@
 package props
 
 import (
+	"bytes"
 	"fmt"
 	"net"
 	"runtime"
@@ -9,8 +10,10 @@ import (
 	"testing"
 
 	"github.com/pion/stun/v3"
+	"github.com/pion/stun/v3/internal/hmac"
 	"github.com/pion/stun/v3/verifharness/core"
 	"github.com/pion/stun/v3/verifharness/gen"
+	"github.com/pion/stun/v3/verifharness/ref"
 )
 
 // C20: hot paths allocate nothing in steady state, whatever the message.
@@ -139,6 +142,104 @@ func c20(c *core.Ctx) {
 	runtime.GOMAXPROCS(1)
 	old := debug.SetGCPercent(-1)
 	defer debug.SetGCPercent(old)
+	// What the process used first - the other HMAC flavour, a decode, a URI - must not make the hot paths allocate:
+	// each variant is the first thing its process does with the library, then the hot paths are warmed and measured.
+	c.SectionFirst("first-use-order", 4, func(i int64, r *gen.Rand) {
+		switch i {
+		case 0: // the SHA-256 flavour of the pooled HMAC is the first (and a recurring) user of the pools
+			for k := 0; k < 4; k++ {
+				h := hmac.AcquireSHA256([]byte("other-user"))
+				_, _ = h.Write([]byte("x"))
+				_ = h.Sum(nil)
+				hmac.PutSHA256(h)
+			}
+		case 1: // a long-term key is derived first
+			_ = stun.NewLongTermIntegrity("user", "realm", "pass")
+		case 2: // a decode is first
+			_ = stun.Decode(ref.Encode(0x0101, r.TID(), []ref.Attr{{Type: 0x8022, Value: []byte("first")}}), new(stun.Message))
+		case 3: // a URI is first
+			_, _ = stun.ParseURI("stun:example.org")
+		}
+		key := []byte("secret")
+		mi := stun.MessageIntegrity(key)
+		tid := stun.NewTransactionIDSetter(r.TID())
+		soft := stun.NewSoftware("first-use")
+		m := &stun.Message{Raw: make([]byte, 0, 1024)}
+		setters := []stun.Setter{stun.BindingRequest, tid, &soft, &mi, stun.Fingerprint} // boxed once, outside the measurement
+		build := func() { _ = m.Build(setters...) }
+		build()
+		dec := &stun.Message{Raw: make([]byte, 0, 1024)}
+		wire := append([]byte(nil), m.Raw...)
+		ops := []struct {
+			name string
+			f    func()
+		}{
+			{"Build(pointer setters, MessageIntegrity, Fingerprint)", build},
+			{"MessageIntegrity.Check", func() { _ = mi.Check(m) }},
+			{"Fingerprint.Check", func() { _ = stun.Fingerprint.Check(m) }},
+			{"Decode", func() { _ = stun.Decode(wire, dec) }},
+		}
+		for _, op := range ops {
+			op.f()
+			op.f()
+			c.Eval(1)
+			if i == 0 && op.name == "MessageIntegrity.Check" {
+				h := hmac.AcquireSHA256([]byte("other-user")) // the other flavour keeps being used between the checks
+				hmac.PutSHA256(h)
+				op.f()
+			}
+			if a := testing.AllocsPerRun(100, op.f); a != 0 {
+				c.Violate("allocates", "alloc:first-use:"+op.name, map[string]interface{}{"operation": op.name, "allocs_per_run": a, "first_use_variant": i,
+					"problem": "a warm hot path allocates in a process whose first use of the library was something else"})
+			}
+		}
+		c.Count("first_use_variants_measured", 1)
+	})
+	// A message carried inside another (TURN Data/Send indications carry connectivity checks in DATA): the inner one is
+	// decoded straight from the attribute value, i.e. from a view into the receiver's own buffer at a non-zero offset.
+	c.SectionSerial("decode-embedded-message", 9, func(i int64, r *gen.Rand) {
+		inner := ref.Encode(0x0001, r.TID(), []ref.Attr{{Type: 0x0006, Value: []byte("inner:user")}, {Type: 0x0024, Value: []byte{1, 2, 3, 4}},
+			{Type: 0x8022, Value: bytes.Repeat([]byte("s"), []int{5, 120, 900}[i/3])}})
+		outer := ref.Encode(0x0017, r.TID(), []ref.Attr{{Type: 0x0012, Value: ref.EncXORAddr([]byte{192, 0, 2, 1}, 4242, [12]byte{})}, {Type: 0x0013, Value: inner}})
+		m := &stun.Message{Raw: make([]byte, 0, 4096)}
+		var bad string
+		op := func() {
+			if err := stun.Decode(outer, m); err != nil {
+				bad = "outer: " + err.Error()
+
+				return
+			}
+			v, err := m.Get(stun.AttrData)
+			if err != nil {
+				bad = "DATA: " + err.Error()
+
+				return
+			}
+			switch i % 3 {
+			case 0:
+				err = stun.Decode(v, m)
+			case 1:
+				_, err = m.Write(v)
+			case 2:
+				err = m.UnmarshalBinary(v)
+			}
+			if err != nil {
+				bad = "inner: " + err.Error()
+			}
+		}
+		op()
+		op()
+		c.Eval(1)
+		if rm, _ := ref.Parse(inner); bad != "" || diffRef(m, rm, inner) != "" {
+			c.Violate("embedded-decode-wrong", "embedded-decode", map[string]interface{}{"entry_point": []string{"Decode", "Write", "UnmarshalBinary"}[i%3], "error": bad, "diff": diffRef(m, rm, inner)})
+
+			return
+		}
+		if a := testing.AllocsPerRun(100, op); a != 0 {
+			c.Violate("allocates", "alloc:decode-embedded:"+[]string{"Decode", "Write", "UnmarshalBinary"}[i%3], map[string]interface{}{"allocs_per_run": a, "inner_bytes": len(inner),
+				"problem": "decoding the message carried in a DATA attribute from the attribute value (a view into the receiver's own, large enough buffer) allocates"})
+		}
+	})
 	// targeted, deterministic scenario for the recorded finding: explicit spare capacities around 20
 	c.SectionSerial("integrity-check-spare-capacity", 6, func(i int64, r *gen.Rand) {
 		spare := []int{0, 1, 19, 20, 21, 64}[i]
